@@ -14,7 +14,7 @@ BAD_TERM = '(WGen [] (Nd []) (Ok (SV None)))'
 COMPS = ['c1', 'c2']
 BRANCH = ['sa', 'sb', 'sc']
 NEST = ['n', 'm']
-VARS = ['x', 'y', 'z', 'w']
+VARS = ['x', 'y', 'z', 'w', '_u']      # ('_u': a variable name may begin with an underscore)
 GLOBS = ['ga', 'gb']
 KIDS = ['k1', 'k2', 'k3']
 PORTS = ['pa', 'pb', 'pc', 'pd']
@@ -30,7 +30,7 @@ def gen_var(rng):
     return {'$var': {'default': rng.choice([0, 1, 2, 5, -3]), 'value': None, 'units': None}}
 
 
-GLOB_DEFAULT = {'x': 5, 'y': 1, 'z': 0, 'w': 2}
+GLOB_DEFAULT = {'x': 5, 'y': 1, 'z': 0, 'w': 2, '_u': 4}
 
 
 def gen_glob_var(rng, v):
@@ -45,7 +45,12 @@ def gen_vars_schema(rng, nested_ok=True):
         c.append([v, gen_var(rng)])
     if nested_ok and rng.random() < 0.3:
         n = rng.choice(NEST)
-        c.append([n, {'$node': {'out': False, 'c': [[v, gen_var(rng)] for v in rng.sample(VARS, rng.randint(1, 2))]}}])
+        inner = [[v, gen_var(rng)] for v in rng.sample(VARS, rng.randint(1, 2))]
+        if rng.random() < 0.35:
+            # a second level of nesting below the port
+            inner.append([rng.choice(NEST), {'$node': {'out': False, 'c': [
+                [v, gen_var(rng)] for v in rng.sample(VARS, rng.randint(1, 2))]}}])
+        c.append([n, {'$node': {'out': False, 'c': inner}}])
     rng.shuffle(c)
     return c
 
